@@ -1,9 +1,63 @@
+import json
+import os
+import random
+import subprocess
+import sys
+
 import gen
+import nv
 from props._local import run_local
+
+
+def jit_ground(ctx):
+    """instantiated tuples in COMPILED mode (harness/jit_ground.py): a defect that needs the absence of bounds checks to accept a
+    violating tuple is invisible to the interpreted sweep"""
+    import props_sweep
+
+    rng = random.Random(ctx["seed"] + 606)
+    per_alg = 250 if ctx["tier"] == "quick" else 4000
+    cases = []
+    for alg in gen.ALGS:
+        pts = []
+        for ps, b in gen.prop_scope(alg):
+            if all(d[0] == d[1] for d in b):
+                pts.append((ps, [d[0] for d in b]))
+        if len(pts) > per_alg:
+            pts = rng.sample(pts, per_alg)
+        for _ in range(per_alg // 2):
+            ps, b = gen.prop_random(alg, rng)
+            pts.append((ps, [rng.randint(d[0], d[1]) for d in b]))
+        for _ in range(per_alg // 5):
+            w = gen.prop_wide(alg, rng)
+            if w is not None:
+                pts.append((w[0], [rng.choice([d[0], d[1], rng.randint(d[0], d[1])]) for d in w[1]]))
+        for ps, t in pts:
+            if props_sweep.known_finding(alg, ps, [(x, x) for x in t]) is None:
+                cases.append([alg, list(ps), list(t)])
+    work = os.path.join(nv.VERIF, ".cache", "work")
+    os.makedirs(work, exist_ok=True)
+    base = os.path.join(work, f"C06j-{os.getpid()}")
+    json.dump(cases, open(base + ".cases", "w"))
+    try:
+        r = subprocess.run([sys.executable, os.path.join(os.path.dirname(os.path.abspath(nv.__file__)), "jit_ground.py"), base + ".cases", base + ".out"],
+                           capture_output=True, text=True, timeout=1200)
+        viol = json.load(open(base + ".out")) if r.returncode == 0 and os.path.exists(base + ".out") else []
+        if r.returncode != 0:
+            ctx["report"].count("jit_ground_worker_failed", None, 1)
+    except subprocess.TimeoutExpired:
+        viol = []
+        ctx["report"].count("jit_ground_worker_failed", None, 1)
+    for ext in (".cases", ".out"):
+        if os.path.exists(base + ext):
+            os.remove(base + ext)
+    ctx["report"].cov["evaluations"] += len(cases)
+    ctx["report"].count("ground_tuples_compiled", None, len(cases))
+    return viol
 
 
 def run(ctx):
     r = run_local(ctx, "C06", {"ground", "sound"}, gen.ALGS, ["affine_eq_ground", "affine_zero_coeffs", "no_sub_cycle_n2"],
                   "runAlg (NucsModel/Registry.lean) vs compute_domains_* on instantiated boxes and boxes collapsing to a point")
+    r["violations"] += jit_ground(ctx)
     r["partial"] = ["GroundOk is proved for all 21 algorithms (no_sub_cycle: on permutations); gcc with a zero capacity is known finding K1 (the code is wrong there; those inputs are excluded from the correspondence by predicate)"]
     return r
